@@ -326,6 +326,8 @@ class ScriptRun:
         self.stats = collections.Counter()
         self.samples = []
         self.trace = []                 # session events for the Lean session model
+        self.relaxed = False
+        self.abort = False
         self.lines = [it[2] for it in case["script"] if it[0] == "line"]
         for it in case["script"]:
             if it[0] == "line" and len(it) > 3:
@@ -378,21 +380,33 @@ class ScriptRun:
         if odd:
             self.fail("monitor", monitor="worker-arguments-differ", line=line, detail=odd[:4])
 
-    async def end_wait(self, s):
-        """the environment ends the wait of a pending command: tasks finish; if that is not enough the pool is closed"""
-        wmod.release()
-        await W.spin()
-        if not self.sess[s].writer.writes and self.sess[s].escaped() is None:
-            for p in (self.pool, self.twin):
-                tok = _depth.set(1)
-                try:
-                    t = asyncio.ensure_future(p.gather_and_close())
-                finally:
-                    _depth.reset(tok)
-                self.bg.append(t)
-            for _ in range(5):
-                wmod.release()
-                await W.spin()
+    async def end_wait(self, s, exp):
+        """the environment ends the wait of a pending command: tasks finish (as often as the pool needs to drain); if that is
+        not enough the pool is closed"""
+        def over():
+            mine = bool(self.sess[s].writer.writes) or self.sess[s].escaped() is not None
+            if exp.session is not None:
+                theirs = bool(exp.session.writer.writes)
+            else:
+                theirs = exp.task.done()
+            return mine and theirs
+        for _ in range(40):
+            if over():
+                return
+            wmod.release()
+            await W.spin()
+        for p in (self.pool, self.twin):
+            tok = _depth.set(1)
+            try:
+                t = asyncio.ensure_future(p.gather_and_close())
+            finally:
+                _depth.reset(tok)
+            self.bg.append(t)
+        for _ in range(40):
+            if over():
+                return
+            wmod.release()
+            await W.spin()
 
     # -- one line
     async def do_line(self, s, line, extra=None):
@@ -402,7 +416,7 @@ class ScriptRun:
         self.stats["v:" + v["kind"]] += 1
         if v["kind"] == "error":
             self.stats["e:" + v["err"]] += 1
-        if self.dead[s]:
+        if self.dead[s] or self.abort:
             return
         if self.mode == "tv" and v["kind"] == "outside":
             self.stats["skipped_outside"] += 1
@@ -456,7 +470,8 @@ class ScriptRun:
         kind, first = W.classify_reply(reply)
         first = first or ""
         delta = calls_of(self.pool) - calls0
-        if self.mode == "iso":
+        strict = self.mode == "iso" and not self.relaxed
+        if strict:
             self.stats["inv:" + str(delta)] += 1
             if delta > 1:
                 self.fail("monitor", monitor="several-invocations", line=line, detail=delta)
@@ -464,7 +479,7 @@ class ScriptRun:
                 self.fail("monitor", monitor="pool-altered-without-invocation", line=line,
                           detail=[before, observe_quiet(self.pool)])
         if v["kind"] in ("help", "error"):
-            if observe_quiet(self.pool) != before or (self.mode == "iso" and delta != 0):
+            if (observe_quiet(self.pool) != before and not self.relaxed) or (strict and delta != 0):
                 self.fail("monitor", monitor="rejected-line-altered-pool", line=line,
                           detail={"before": before, "after": observe_quiet(self.pool), "invocations": delta})
             got = (kind, None) if kind == "help" else (kind, first or None)
@@ -489,7 +504,7 @@ class ScriptRun:
         if self.mode == "iso" and v["kind"] in ("call", "get", "set"):
             if kind in ("help", "error"):
                 self.fail("diff", what="verdict", line=line, model=v, impl=[kind, first, text[:160]])
-            elif delta != 1:
+            elif strict and delta != 1:
                 self.fail("monitor", monitor="command-did-not-invoke-once", line=line, detail=delta)
         self.compare_pools(line, "after")
         self.worker_calls_paired(line)
@@ -514,11 +529,12 @@ class ScriptRun:
         if sess.writer.writes:
             self.fail("monitor", monitor="reply-before-wait-ended", line=line, detail=sess.take())
             return
+        self.relaxed = bool(queued)          # the waiting session may resume (and invoke) while another one is served
         for (s2, l2) in extra.get("meanwhile", []):
             if s2 != s:
                 await self.do_line(s2, l2)
-        if not sess.writer.writes:
-            await self.end_wait(s)
+        self.relaxed = False
+        await self.end_wait(s, exp)
         await W.spin()
         got = sess.take()
         if sess.escaped() is not None:
@@ -542,8 +558,15 @@ class ScriptRun:
             want0 = r[0][:-1] if r else None
             await o.finish()
         if not got:
-            self.fail("monitor", monitor="no-reply-after-wait-ended", line=line, detail={"oracle": want0})
             self.dead[s] = True
+            if want0 is None:
+                # neither the session nor the same call made directly ever returns (e.g. tasks that can never start in a
+                # pool of size 0): the wait is not over, so no reply is owed
+                self.stats["endless_waits"] += 1
+                await self.drop_pending(exp)
+                self.abort = True           # the two pools are no longer comparable once the harness cancelled one wait
+                return
+            self.fail("monitor", monitor="no-reply-after-wait-ended", line=line, detail={"oracle": want0})
             return
         if want0 is None:
             # the session answered although the same call made directly (or by a fresh session) is still waiting
@@ -631,6 +654,8 @@ class ScriptRun:
                 s.start()
                 self.sess.append(s)
             for it in case["script"]:
+                if self.abort:
+                    break
                 if it[0] == "line":
                     await self.do_line(it[1], it[2], it[3] if len(it) > 3 else None)
                 elif it[0] == "pair":
